@@ -443,7 +443,14 @@ class LoopMixin:
             self.assume_all(side)
             self.oblige("CALL", f"{unit.name}.pre.{lab or i}@{line}", t, text, prop)
         old = self.heap
-        if unit.modifies is not None:
+        if unit.modifies is not None and "*" in unit.modifies:
+            # the callee runs arbitrary external code: same frame as an external
+            # call (objects allocated by this activation are untouched, A-EXT-LOCAL)
+            prot = []
+            for m in unit.protects:
+                prot.extend(self.eval_locs(m, env=env))
+            self.havoc_heap(prot, None, {"preserves": tuple(unit.preserves)}, tag="C")
+        elif unit.modifies is not None:
             mods = []
             for m in unit.modifies:
                 if m == "*":
@@ -483,7 +490,7 @@ class LoopMixin:
                 r = tv.r
             else:
                 r = fresh("r_" + unit.name.replace(".", "_"), Val)
-                tv = TV("val", r, rt if rt and "|" not in rt and rt != "any" else None)
+                tv = TV("val", r, rt if rt and rt != "any" else None)
                 self.closed(r)
                 if rt and rt != "any":
                     self.assume(self.type_fact(r, rt))
